@@ -1,5 +1,6 @@
 import Heathcliff.Proofs.C07S
 import Heathcliff.Proofs.C07L
+import Heathcliff.Proofs.GenScalingSpec
 
 /- Property theorems only (statements verbatim; proofs are the helper lemmas of Heathcliff/Proofs). -/
 namespace HC.C07
@@ -79,5 +80,14 @@ theorem budget_pos_bfvDecode : type_of% @HC.budget_pos_bfvDecode := @HC.budget_p
 /-- model-level corollary: when the MODEL reports a positive budget on a BFV ciphertext (c0, c1), exact decoding of the phase
     returns the message part of every coefficient, and every noise value is below Q/2 -/
 theorem noiseBudget_pos_bfvDecode : type_of% @HC.noiseBudget_pos_bfvDecode := @HC.noiseBudget_pos_bfvDecode
+
+/-! ### translator tie, phase 4a: the scaled plaintext inside every fresh BFV ciphertext whose budget is measured -/
+
+/-- the code generated from `multiply_add_plain` (src/util/scaling_variant.rs) adds exactly Δ(m_i) = round(Q·m_i/t) modulo q_j
+    (= `HC.C01.gen_multiply_add_plain_spec`): the message part t·Δ(m) ≡ Q·m + (rounding ≤ t/2) that `noiseBudget` assumes -/
+theorem gen_multiply_add_plain_spec : type_of% @HC.gen_multiply_add_plain_spec := @HC.gen_multiply_add_plain_spec
+
+/-- … and it is the hand model `multiplyAddPlain` on the flat buffer (= `HC.C01.gen_multiply_add_plain_eq`) -/
+theorem gen_multiply_add_plain_eq : type_of% @HC.gz_multiply_add_plain_eq := @HC.gz_multiply_add_plain_eq
 
 end HC.C07
